@@ -89,6 +89,14 @@ def scenarios(pid, quick):
             add('pilots2/stage:tmgr_in/%d%d' % order, tasks,
                 {'t1': 0, 't2': 0}, fault='stage:tmgr_in', fault_uid='t1',
                 pilots=2)
+        # a bulk whose work routine raises while one of its tasks is named
+        # by a cancel request: that task ends CANCELED (request seen first)
+        # or FAILED (with the bulk) - one of them, announced once
+        for c in (['agent_in', 'exec'] if quick else RAISE_AT):
+            add('bulk-cancel/raise:%s' % c,
+                [{'uid': 't1', 'with_next': True}, {'uid': 't2'}],
+                {'t1': 0, 't2': 0}, fault='raise:%s' % c, fault_uid='t1',
+                cancel=['t2'])
         if not quick:
             for f in faults:
                 d = dict(STAGE_FAULT.get(f, {}))
@@ -164,6 +172,21 @@ def judge(part, pid, w, scn):
                  'all tasks gone, node map %s, _active_cnt %s'
                  % ([n['cores'] for n in c.nodes], c._active_cnt))
 
+    # exactly one final state: however the notifications reach the client,
+    # no component announces a second final state for a task
+    pubs = dict()
+    for pub, msgs in sorted(w.client_fifos.items()):
+        for m in msgs:
+            for t in ru.as_list(m['arg']):
+                if t['state'] in FINAL:
+                    pubs.setdefault(t['uid'], list()).append(
+                                                        (t['state'], pub))
+    for uid, fin in sorted(pubs.items()):
+        if len(fin) > 1:
+            viol('C05', 'final-published-twice', 'BaseComponent.advance',
+                 '+'.join(sorted(x[0] for x in fin)),
+                 '%s is announced in final states %s' % (uid, fin))
+
     for finals, log in outs:
         state = {u: (s, ec, exc) for u, s, ec, exc in finals}
         for spec in scn['tasks']:
@@ -200,7 +223,9 @@ def judge(part, pid, w, scn):
             if uid in named:
                 ok = s == rps.CANCELED or \
                      (proc is not None and proc.code == code and
-                      s == (rps.DONE if code == 0 else rps.FAILED))
+                      s == (rps.DONE if code == 0 else rps.FAILED)) or \
+                     (str(fault).startswith('raise:') and s == rps.FAILED
+                      and has_exc)       # failed with its bulk
                 if not ok:
                     for prop in ('C05', 'C08'):
                         viol(prop, 'named-final-state', _site_of(w, uid),
@@ -335,6 +360,9 @@ def run(ctx):
         from checks import c07_executor
         sched_check.run_sched(ctx, 'C08')
         c07_executor.run_exec(ctx, 'C08')
+        # ... and meeting tasks in the scheduler's raptor backlog
+        from checks import c20_master
+        c20_master.run_backlog_cancel(ctx)
 
     if ctx.pid == 'C05':
         # the executor's interleavings: exactly one hand-on per task
